@@ -8,6 +8,7 @@ pub fn replay(id: &str, file: &str) -> i32 {
     let f = Path::new(file);
     let r = match id {
         "C01" => c01::replay(&mut run, f),
+        "C02" => c01::replay_c02(&mut run, f),
         _ => None,
     };
     match r {
